@@ -302,6 +302,7 @@ type hist struct {
 	// loaded stream
 	keepMtime bool  // the next version keeps the mtime if its size differs
 	lastSize  int64 // size of the previous version
+	lastMtime int64
 	prevTag   string
 }
 
@@ -401,25 +402,37 @@ func (h *hist) restamp() (int64, int64) {
 		return 0, 0
 	}
 	if !h.natural {
-		if h.keepMtime && fi.Size() != h.lastSize && !h.stamps[fmt.Sprintf("%d-%d", fi.Size(), h.clock)] {
+		inc := []int64{1, 1000, 1000000, 1000000000}[h.r.Intn(4)]
+		if h.keepMtime && fi.Size() != h.lastSize && !h.stamps[fmt.Sprintf("%d-%d", fi.Size(), h.lastMtime)] {
 			// the versions differ in size only (same mtime)
-			h.t.Note("same-mtime-different-size")
-		} else {
-			h.clock += []int64{1, 1000, 1000000, 1000000000}[h.r.Intn(4)]
-		}
-		if fi.Size() == h.lastSize {
-			h.t.Note("same-size-different-mtime")
+			inc = 0
 		}
 		h.keepMtime = false
+		// the stamp is read back: a file system that rounds the time may give
+		// the stamp of an earlier version; then step further
+		for try := 0; ; try++ {
+			h.clock += inc
+			tm := time.Unix(0, h.clock)
+			if err := os.Chtimes(h.file, tm, tm); err != nil {
+				panic(err)
+			}
+			fi, err = os.Stat(h.file)
+			if err != nil {
+				panic(err)
+			}
+			if !h.stamps[fmt.Sprintf("%d-%d", fi.Size(), fi.ModTime().UnixNano())] || try >= 4 {
+				break
+			}
+			h.t.Note("stamp-rounded-by-the-file-system")
+			inc = 2000000000
+		}
+		if inc == 0 {
+			h.t.Note("same-mtime-different-size")
+		} else if fi.Size() == h.lastSize {
+			h.t.Note("same-size-different-mtime")
+		}
 		h.lastSize = fi.Size()
-		tm := time.Unix(0, h.clock)
-		if err := os.Chtimes(h.file, tm, tm); err != nil {
-			panic(err)
-		}
-		fi, err = os.Stat(h.file)
-		if err != nil {
-			panic(err)
-		}
+		h.lastMtime = fi.ModTime().UnixNano()
 	}
 	key := fmt.Sprintf("%d-%d", fi.Size(), fi.ModTime().UnixNano())
 	if h.stamps[key] {
@@ -1429,15 +1442,12 @@ func (h *hist) lockstep(a, b lsOp) {
 	time.Sleep(2 * time.Millisecond)
 	group.VerifDescriptionsUnlock()
 	wg.Wait()
-	if !oka || !okb {
-		h.t.Note("lockstep-writer-did-not-park")
-	}
-	first, second, r1, r2 := b, a, rb, ra
-	if oa < ob {
-		first, second, r1, r2 = a, b, ra, rb
-		h.t.Note("lockstep-A-before-B")
-	}
-	// the final definition under both serial orders of the acknowledged writes
+	disturbed := !oka || !okb
+	// Which of the two parked goroutines got the mutex first is not
+	// determined (sync.Mutex is not FIFO) and is not observable from here:
+	// the monitor accepts both serial orders, and the trace line carries both
+	// requests with the observed results and final definition; the model side
+	// looks for the serial order that produces them.
 	serial := func(x lsOp, rx string, y lsOp, ry string) *proj {
 		p := h.exp.clone()
 		if rx == "ok" {
@@ -1450,78 +1460,53 @@ func (h *hist) lockstep(a, b lsOp) {
 	}
 	got, _, err := readProj(h.file)
 	h.t.Checked("C18.lockstep_serial")
-	p12 := serial(first, r1, second, r2)
+	pba := serial(b, rb, a, ra)
+	pab := serial(a, ra, b, rb)
 	if err != nil {
 		h.t.Fail("C18", "lockstep_serial", "definition unreadable after the schedule: "+err.Error())
-		got = p12
-	} else if got.String() != p12.String() {
-		p21 := serial(second, r2, first, r1)
-		if got.String() == p21.String() {
-			first, second, r1, r2 = second, first, r2, r1
-			p12 = p21
-			h.t.Note("lockstep-order-corrected")
-		} else {
-			h.t.Fail("C18", "lockstep_serial", fmt.Sprintf(
-				"B=%s(t=%d,arg=%d)=>%s completed in its locked section between the start of A=%s(t=%d,arg=%d,http=%v)=>%s and A's locked section; the definition is [%s], the acknowledged writes amount to [%s] (before: [%s])",
-				b.kind, b.t, b.arg, rb, a.kind, a.t, a.arg, a.http, ra, got, p12, h.exp))
-			p12 = got
-		}
+		got = pba
+	} else if got.String() != pba.String() && got.String() != pab.String() {
+		h.t.Fail("C18", "lockstep_serial", fmt.Sprintf(
+			"B=%s(t=%d,arg=%d)=>%s was queued on the lock before A=%s(t=%d,arg=%d,http=%v)=>%s; the definition is [%s], the acknowledged writes amount to [%s] (before: [%s])",
+			b.kind, b.t, b.arg, rb, a.kind, a.t, a.arg, a.http, ra, got, pba, h.exp))
 	}
-	if ra == "ok" && rb == "ok" && a.conditional() && a.tag != "" && !(a.http && offersTag(a.tag, "*")) {
+	star := func(o lsOp) bool { return o.http && offersTag(o.tag, "*") }
+	if a.conditional() && b.conditional() && a.tag != "" && b.tag != "" && !star(a) && !star(b) {
+		// both hold a tag of the file as it was before the schedule
 		h.t.Checked("C18.exclusive")
-		if oa > ob {
-			h.t.Fail("C18", "exclusive", fmt.Sprintf("A=%s holding tag %q was acknowledged after B=%s had been acknowledged (a tag older than an acknowledged update)", a.kind, a.tag, b.kind))
+		if ra == "ok" && rb == "ok" {
+			h.t.Fail("C18", "exclusive", fmt.Sprintf("A=%s holding tag %q and B=%s holding tag %q were both acknowledged", a.kind, a.tag, b.kind, b.tag))
 		}
 	}
-	h.exp = p12
-	if r1 == "ok" {
+	h.exp = got
+	if ra == "ok" {
 		h.acks++
 	}
-	if r2 == "ok" {
+	if rb == "ok" {
 		h.acks++
 	}
 	var size, mtime int64
-	if r1 == "ok" || r2 == "ok" {
+	if ra == "ok" || rb == "ok" {
 		size, mtime = h.restamp()
 	}
-	// trace lines in serial order; a version that was replaced at once gets a
-	// dummy stamp (the model needs it only to be different)
-	line := func(o lsOp, res string, last bool) {
-		var sz, mt int64
-		if res == "ok" {
-			sz, mt = 1, 1
-			if last {
-				sz, mt = size, mtime
-			}
-		}
-		if o.http {
-			obs := res
-			if res == "ok" {
-				obs = "2xx"
-			}
-			h.t.Op(obs, "lswrite", o.kind, o.t, []byte(o.tag), []byte(o.inm), o.arg, sz, mt)
-			return
-		}
-		switch o.kind {
-		case "updesc":
-			h.t.Op(res, "updesc", []byte(o.tag), o.arg, sz, mt)
-		case "deldesc":
-			h.t.Op(res, "deldesc", []byte(o.tag))
-		case "upuser":
-			h.t.Op(res, "upuser", o.t, []byte(o.tag), o.arg, sz, mt)
-		case "deluser":
-			h.t.Op(res, "deluser", o.t, []byte(o.tag), sz, mt)
-		case "setpw":
-			h.t.Op(res, "setpw", o.t, o.arg, sz, mt)
-		case "setkeys":
-			h.t.Op(res, "setkeys", o.arg, sz, mt)
-		}
-	}
-	line(first, r1, r2 != "ok")
-	line(second, r2, true)
-	if r1 != "ok" || r2 != "ok" {
+	if ra != "ok" || rb != "ok" {
 		h.stale++
 	}
+	if disturbed {
+		// a request neither parked nor returned within the timeout: what it
+		// read before the lock is not known; do not compare this schedule
+		h.t.Note("disturbed-by-timing")
+		h.resync()
+		return
+	}
+	final := got.String()
+	ah := 0
+	if a.http {
+		ah = 1
+	}
+	h.t.Op("serial", "ls2", rb, ra, []byte(final), size, mtime,
+		b.kind, b.t, []byte(b.tag), b.arg,
+		ah, a.kind, a.t, []byte(a.tag), []byte(a.inm), a.arg)
 	h.state()
 }
 
@@ -1603,6 +1588,16 @@ func (h *hist) hget(form int, im, inm string) {
 		dstr = strings.TrimPrefix(body.DisplayName, "d")
 	}
 	cur := h.curTag()
+	if !h.hypoOK {
+		// two versions got the same stamp: outside the property's hypothesis
+		h.t.Note("monitor-skipped-stamp-hypothesis-not-met")
+		e := "-"
+		if w.Code != 404 {
+			e = tr.Hex([]byte(etag))
+		}
+		h.t.Op(fmt.Sprintf("%d %s %s", w.Code, e, dstr), "hget", form, []byte(im), []byte(inm))
+		return
+	}
 	h.t.Checked("C18.content_matches_tag")
 	if w.Code != 404 && etag != cur {
 		h.t.Fail("C18", "content_matches_tag", fmt.Sprintf("GET %s served the tag %s, the definition on disk has %s (an acknowledged update is not visible)", path, etag, cur))
@@ -1761,6 +1756,7 @@ func runChild(h *hist, mode, tag string, arg int, inject string, logPath string)
 	return r
 }
 
+var reResumed = regexp.MustCompile(`^(\d+)\s+<\.\.\. \w+ resumed>(.*)`)
 var reSys = regexp.MustCompile(`^\d+\s+(\w+)\((.*)`)
 
 // projectSyscalls extracts from a strace log the calls that touch the group
@@ -1769,7 +1765,31 @@ func projectSyscalls(log, dir string) ([]string, map[string]int) {
 	var seq []string
 	counts := map[string]int{}
 	tempFd := ""
+	// strace splits a call into "<unfinished ...>" and "<... name resumed>"
+	// when another thread's event comes in between: join the two halves
+	pending := map[string]string{}
+	var lines []string
 	for _, line := range strings.Split(log, "\n") {
+		if m := reResumed.FindStringSubmatch(line); m != nil {
+			if head, ok := pending[m[1]]; ok {
+				delete(pending, m[1])
+				lines = append(lines, head+m[2])
+			}
+			continue
+		}
+		if i := strings.Index(line, "<unfinished ...>"); i >= 0 {
+			if f := strings.Fields(line); len(f) > 0 {
+				pending[f[0]] = line[:i]
+			}
+			continue
+		}
+		lines = append(lines, line)
+	}
+	// a call that was never resumed was entered and killed: counted, not run
+	for _, head := range pending {
+		lines = append(lines, head+") = ?")
+	}
+	for _, line := range lines {
 		m := reSys.FindStringSubmatch(line)
 		if m == nil {
 			continue
